@@ -171,7 +171,7 @@ func (e *Engine) AddContracts(f *contract.File) error {
 		e.Lemmas = append(e.Lemmas, l)
 		e.LemmaPkg[l] = f.Pkg
 		// a lemma is usable as a predicate over its parameters (instances are assumed via "use")
-		p := &contract.Pred{Name: l.Name, Body: l.Expr}
+		p := &contract.Pred{Name: l.Name, Body: l.Expr, Pkg: f.Pkg}
 		for _, prm := range l.Params {
 			p.Params = append(p.Params, strings.Fields(prm)[0])
 		}
